@@ -4,6 +4,7 @@ Written by Marten H. van Kerkwijk (@mhvk) for gh:mhvk/baseband_tasks.
 Licensed under the GPLv3.
 """
 
+import re
 import numpy as np
 from decimal import Context, Decimal, ROUND_HALF_EVEN
 from decimal import localcontext as decimal_context
@@ -426,15 +427,19 @@ class Phase(Angle):
         if format_spec.endswith("f") and self.isscalar:
             # Check that formatting works at all...
             format(0.0, format_spec)
-            # The number of decimals requested (6 by default, as for floats).
-            _, dot, digits = format_spec[:-1].rpartition(".")
-            precision = int(digits) if dot else 6
-            precise = str(self.to_string(precision=precision))
-            suffix = "j" if precise.endswith("j") else ""
-            pre, dot, post = precise[: len(precise) - len(suffix)].partition(".")
-            # Sign, width, etc., follow from formatting the integer part alone.
-            pre = format(float(pre), format_spec).partition(".")[0]
-            return pre + dot + post + suffix
+            # Format the exact sum of the two doubles; Decimal follows the same
+            # format specification as float (sign, fill, width, grouping, ...).
+            if not re.fullmatch(r"(?:.?[<>=^])?[^.]*\.\d+f", format_spec, re.DOTALL):
+                # Six decimals by default, as for floats.
+                format_spec = format_spec[:-1] + ".6f"
+            count, frac = self["int"].value, self["frac"].value
+            if self.imaginary:
+                count, frac = count.imag, frac.imag
+            with decimal_context(Context(prec=1200, rounding=ROUND_HALF_EVEN)):
+                value = Decimal(float(count)) + Decimal(float(frac))
+                if value == 0 and not (count + frac < 0):
+                    value = abs(value)
+                return format(value, format_spec) + ("j" if self.imaginary else "")
 
         return self.cycle.__format__(format_spec)
 
